@@ -360,7 +360,18 @@ fn cli_roundtrip(bin: &std::path::Path, case: &Case, text: &str, c1: &Components
         let r2 = cli::run(bin, &a2, 20_000);
         t.evaluations += 1;
         let rep = |s: &str| -> String { s.split("** Eficiencia energética").nth(1).unwrap_or("").to_string() };
-        if r2.code != Some(0) {
+        if rep(&r1.stdout).is_empty() {
+            // nothing to compute (a file with needs / delivered energy only): there is no report to compare; the saved
+            // file must still be readable and carry the declared needs
+            let saved = std::fs::read_to_string(&oc).unwrap_or_default();
+            let needs_in = text.lines().filter(|l| l.trim_start().starts_with("DEMANDA")).count();
+            let needs_out = saved.lines().filter(|l| l.trim_start().starts_with("DEMANDA")).count();
+            let services = |s: &str| -> std::collections::BTreeSet<String> { s.lines().filter(|l| l.trim_start().starts_with("DEMANDA")).filter_map(|l| l.split(',').nth(1).map(|x| x.trim().to_string())).collect() };
+            if r2.code != Some(0) || (needs_in > 0 && services(text) != services(&saved)) {
+                t.violation("C18.demand_changes", format!("file without energy components: {needs_in} DEMANDA line(s) for {:?} declared, the file saved with --oc has {needs_out} for {:?} (re-run exit {:?})", services(text), services(&saved), r2.code), || wit(json!({"saved_components": saved})));
+            }
+            t.count("cli_round_trips_without_components");
+        } else if r2.code != Some(0) {
             t.violation("C18.saved_files_not_evaluable", format!("the files saved with --oc / --of are rejected (exit {:?}): {}", r2.code, r2.stderr.lines().next().unwrap_or("")), || wit(json!({"saved_components": std::fs::read_to_string(&oc).unwrap_or_default(), "saved_factors": std::fs::read_to_string(&of).unwrap_or_default()})));
         } else {
             // effect of the text rounding on the per-m2 figures, as propagated by the equations (reference
@@ -447,6 +458,17 @@ pub fn run(ctx: &Ctx) -> Report {
         if r.chance(1, 4) {
             case.area = 100.0;
             case.k = 0.5;
+        }
+        if r.chance(1, 40) {
+            // a file that declares building needs (and metadata) only, or needs and delivered energy only
+            use crate::spec::Line;
+            let keep_out = r.chance(1, 2);
+            case.spec.lines.retain(|l| matches!(l, Line::Need { .. }) || (keep_out && matches!(l, Line::Out { .. })));
+            if !case.spec.lines.iter().any(|l| matches!(l, Line::Need { .. })) {
+                case.spec.lines.push(Line::Need { srv: "ACS".into(), v: vec![12.5; case.spec.n] });
+                case.spec.lines.push(Line::Need { srv: "REF".into(), v: vec![-3.25; case.spec.n] });
+            }
+            t.count("files_with_needs_only");
         }
         check_case(ctx, &case, idx % cli_every == 0, t);
     });
